@@ -96,9 +96,22 @@ MAIN = {
                    'area / (rise_time / 2 + fall_time / 2 + flat_time)',
                    'flat_area / flat_time',
                    'amplitude'],
-    'possible': ['duration >= rise_time + fall_time and abs(amplitude2) <= max_grad'],
-    'flat_time': ['duration - rise_time - fall_time', 'duration - rise_time - fall_time', '0.0'],
 }
+# The two places where a repair has been PROPOSED but is not (yet) in the repository.  The model
+# (Model/Trap.v) implements both forms of each, selected by the Gen constants below; EXPECT says which form
+# the repository is expected to have — any other form fails closed.  When a proposed repair is committed to
+# the repository, flip the corresponding flag here (the oracle of harness/props/C11.py follows EXPECT).
+EXPECT = {
+    'possible_tolerant': False,       # /tmp/c11_fixA.patch: `duration >= rise + fall - eps`, flat_time = max(..., 0.0)
+    'flat_checks_duration': False,    # /tmp/c11_fixC.patch: area + flat_time + duration must be consistent
+}
+POSSIBLE = {
+    False: {'possible': ['duration >= rise_time + fall_time and abs(amplitude2) <= max_grad'],
+            'flat_time': ['duration - rise_time - fall_time', 'duration - rise_time - fall_time', '0.0']},
+    True: {'possible': ['duration >= rise_time + fall_time - eps and abs(amplitude2) <= max_grad'],
+           'flat_time': ['max(duration - rise_time - fall_time, 0.0)', 'duration - rise_time - fall_time', '0.0']},
+}
+FLAT_DURATION_TEST = 'duration is not None and abs(duration - (rise_time + flat_time + fall_time)) > eps'
 MAIN_TESTS = [
     'system is None',
     "channel not in ['x', 'y', 'z']",
@@ -117,6 +130,7 @@ MAIN_TESTS = [
     'fall_time is None',
     'flat_time is not None',
     'rise_time is None',
+    '@FLAT_DURATION_TEST@',
     'rise_time is not None or fall_time is not None',
     "calc_path == 'flat_area'",
     'duration is not None',
@@ -162,7 +176,26 @@ def sec_trap():
     mt = func(tree, 'make_trapezoid')
     for name, want in MAIN.items():
         expect('make_trapezoid: assignments to %s' % name, assigns(mt, name), want)
-    expect('make_trapezoid: if tests', if_tests(mt), MAIN_TESTS)
+    # form of the `possible` test / flat_time of the area + duration branch
+    tolerant = None
+    for flag, forms in POSSIBLE.items():
+        if all(assigns(mt, name) == want for name, want in forms.items()):
+            tolerant = flag
+    if tolerant is None:
+        raise TranslateError('make_trapezoid: `possible` / `flat_time` assignments match neither known form: %s / %s'
+                             % (assigns(mt, 'possible'), assigns(mt, 'flat_time')))
+    tests = if_tests(mt)
+    checks_duration = FLAT_DURATION_TEST in tests
+    want_tests = [t for t in MAIN_TESTS if t != '@FLAT_DURATION_TEST@' or checks_duration]
+    want_tests = [FLAT_DURATION_TEST if t == '@FLAT_DURATION_TEST@' else t for t in want_tests]
+    expect('make_trapezoid: if tests', tests, want_tests)
+    if tolerant != EXPECT['possible_tolerant']:
+        raise TranslateError('make_trapezoid: the `possible` test of the area + duration branch is %s, expected %s'
+                             % ('eps-tolerant' if tolerant else 'exact', 'eps-tolerant' if EXPECT['possible_tolerant'] else 'exact'))
+    if checks_duration != EXPECT['flat_checks_duration']:
+        raise TranslateError('make_trapezoid: the area + flat_time branch %s `duration`, expected that it %s'
+                             % ('checks' if checks_duration else 'ignores',
+                                'checks it' if EXPECT['flat_checks_duration'] else 'ignores it'))
     for tgt, want in FIELDS.items():
         expect('make_trapezoid: %s' % tgt, attr_assign(mt, tgt), want)
     # the two assertions of the area + duration branch
@@ -183,6 +216,12 @@ def sec_trap():
     out += 'Definition trap_eps : Q := %s.\n' % coq_Q(eps)
     out += '(* default of the `delay` parameter *)\n'
     out += 'Definition trap_default_delay : Q := %s.\n' % coq_Q(const_num(defaults['delay']))
+    out += '(* form of the area + duration + ramps feasibility test: eps-tolerant with flat_time clamped at 0? *)\n'
+    out += 'Definition trap_possible_tolerant : bool := %s.\n' % ('true' if tolerant else 'false')
+    out += '(* does the area + flat_time branch reject a duration inconsistent with rise + flat + fall? *)\n'
+    out += 'Definition trap_flat_checks_duration : bool := %s.\n' % ('true' if checks_duration else 'false')
+    CONSTS['trap_possible_tolerant'] = tolerant
+    CONSTS['trap_flat_checks_duration'] = checks_duration
     return out
 
 
